@@ -615,10 +615,17 @@ type ContractSet struct {
 	Sealed    []string
 	Immutable []string
 	Frames    []*FrameDecl
+	Ordered   []*OrderedDecl
 	Sweep     map[string]bool // property -> sweep the package's functions without contract for implicit panics
 }
 
 // FrameDecl: the only functions of the package allowed to store to a field.
+// OrderedDecl: package-level "ordered f1 f2 ... [props]": no call of one of these functions from inside a map-range loop
+type OrderedDecl struct {
+	Names []string
+	Props []string
+}
+
 type FrameDecl struct {
 	Field   string // Type.field
 	Writers []string
@@ -817,6 +824,18 @@ func LoadContractFile(path string, trusted bool) (*ContractSet, error) {
 				return nil, fmt.Errorf("%s:%d: frame Type.field writers f1 f2 ... [props]", path, it.head.n)
 			}
 			cs.Frames = append(cs.Frames, &FrameDecl{Field: fl[0], Writers: fl[2:], Props: props})
+		case "ordered":
+			// ordered f1 f2 ... [props]
+			fl := strings.Fields(rest)
+			var props []string
+			if len(fl) > 0 && strings.HasPrefix(fl[len(fl)-1], "[") {
+				props, _ = parseTags(fl[len(fl)-1])
+				fl = fl[:len(fl)-1]
+			}
+			if len(fl) < 1 {
+				return nil, fmt.Errorf("%s:%d: ordered f1 f2 ... [props]", path, it.head.n)
+			}
+			cs.Ordered = append(cs.Ordered, &OrderedDecl{Names: fl, Props: props})
 		case "func", "extern", "functype":
 			if word == "functype" {
 				rest = "functype:" + rest
